@@ -207,7 +207,7 @@ def run_case_full(case, scratch):
     info['trace_digest'] = core.digest64([c['preds'] for c in calls])
     # (6) several at once = each alone
     if len(preds) > 1:
-      for p in preds:
+      for p in preds[:2]:
         comp1 = lrun.compiled(text, [p])
         w = sqlworld.World()
         res1, calls1, execs1 = run_recorded(comp1, [p], w, 'silent')
